@@ -158,12 +158,54 @@ def _rep(args):
     return len(vs) != len(set(vs))
 
 
-def shared_var_call(case):
-    """Class of finding F-ENG-4: some call literal (body or query) has the same variable twice."""
-    for s in clause_list(case["prog"]):
-        if s[2] is not None and any(_rep(c[2]) for c in goal_calls(s[2], [])):
+def _shared_call_hits_rule(pred, args, rule_heads):
+    """A call with the same variable twice whose predicate has a clause WITH A BODY that the defect can reach: the
+    variable also occurs inside a compound argument (not analysed further), or it is repeated at the top-level
+    positions i, j and some such clause has syntactically different head arguments at i and j."""
+    if not _rep(args):
+        return False
+    heads = rule_heads.get((pred, len(args)), ())
+    if not heads:
+        return False
+    pos = {}
+    for i, t in enumerate(args):
+        if t[0] == "v" and t[1] != "_":
+            pos.setdefault(t[1], []).append(i)
+    if _rep([t for t in args if t[0] != "v"]):
+        return True  # repeated inside compound arguments
+    for v, ps in pos.items():
+        if _occurs_in_compound(v, args):
             return True
-    return any(_rep(q[1]) for q in case.get("queries", ()))
+        if len(ps) >= 2 and any(h[i] != h[j] for h in heads for i in ps for j in ps if i < j):
+            return True
+    return False
+
+
+def _occurs_in_compound(v, args):
+    def go(t):
+        if t[0] == "v":
+            return t[1] == v
+        if t[0] == "c":
+            return any(go(x) for x in t[2])
+        if t[0] == "l":
+            return any(go(x) for x in t[1]) or (t[2] is not None and go(t[2]))
+        return False
+    return any(go(t) for t in args if t[0] != "v")
+
+
+def shared_var_call(case):
+    """Class of finding F-ENG-4 (a clause body is evaluated without the bindings that head unification puts on
+    shared call variables): some call literal (body or query) has the same variable twice and its predicate has a
+    clause with a body whose head distinguishes the shared positions.  Calls to predicates that only have facts, and
+    clauses whose head has the same term at the shared positions, are not affected by that finding."""
+    rule_heads = {}
+    for s in clause_list(case["prog"]):
+        if s[2] is not None:
+            rule_heads.setdefault((s[1][0], len(s[1][1])), []).append(s[1][1])
+    for s in clause_list(case["prog"]):
+        if s[2] is not None and any(_shared_call_hits_rule(c[1], c[2], rule_heads) for c in goal_calls(s[2], [])):
+            return True
+    return any(_shared_call_hits_rule(q[0], q[1], rule_heads) for q in case.get("queries", ()))
 
 
 def features(prog):
